@@ -11,6 +11,7 @@ void wcfg_parse(wcfg *c, char **tok, int n) {
     c->manual = (int)kvi(tok, n, "manual", 0);
     c->min = kvi(tok, n, "min", 0);
     c->max = kvi(tok, n, "max", 0);
+    c->max2 = kvi(tok, n, "max2", 0);
     c->nowrite = (int)kvi(tok, n, "nowrite", 0);
 }
 
@@ -27,6 +28,7 @@ bool wcfg_apply(zckCtx *zck, const wcfg *c, FILE *out) {
     /* the API only accepts max before min */
     if(c->max) OPT(zck_set_ioption(zck, ZCK_CHUNK_MAX, c->max), "max");
     if(c->min) OPT(zck_set_ioption(zck, ZCK_CHUNK_MIN, c->min), "min");
+    if(c->max2) OPT(zck_set_ioption(zck, ZCK_CHUNK_MAX, c->max2), "max2");
     if(c->nowrite) OPT(zck_set_ioption(zck, ZCK_NO_WRITE, 1), "nowrite");
     return true;
 }
